@@ -1,5 +1,6 @@
 import BoaVerif.Common.Proto
 import BoaVerif.C17.Model
+import BoaVerif.C17.Async
 open BoaVerif BoaVerif.Proto BoaVerif.C17
 
 def field (toks : List String) (name : String) : String :=
@@ -24,6 +25,19 @@ def step (_ : Unit) (toks : List String) : Unit × String :=
       let s' := evaluate g acc.1 r
       (s', acc.2 ++ [match outcome s' with | some e => toString e | none => "-"])) (St.init, [])
     ((), s!"trace={",".intercalate (final.trace.map toString)} outcomes={",".intercalate outs}")
+  | "arun" :: rest =>
+    let depsStr := field rest "deps"
+    let deps := ((depsStr.splitOn ";").filter (fun x => !x.isEmpty)).map (fun e =>
+      match e.splitOn ":" with
+      | [_, ds] => natsOf ds
+      | _ => [])
+    let awaits := natsOf (field rest "awaits")
+    let roots := natsOf (field rest "roots")
+    let g : Async.AGraph := { deps := deps, awaits := awaits }
+    let (final, outs) := roots.foldl (fun (acc : Async.St × List String) r =>
+      let s' := Async.evaluate g acc.1 r
+      (s', acc.2 ++ [if (s'.recOf r).status == .evaluated && s'.queue.isEmpty then "-" else "pending"])) (Async.St.init deps.length, [])
+    ((), s!"trace={",".intercalate (final.trace.map Async.showEv)} outcomes={",".intercalate outs}")
   | _ => ((), "bad-op")
 
 def main : IO Unit := serve step ()
